@@ -410,6 +410,22 @@ func readFrame(s *fakenet.Conn) ([]byte, error) {
 	return b, nil
 }
 
+// FetchOffsets lists the fetch offsets of the fetch requests served so far,
+// in arrival order.
+func (c *Cluster) FetchOffsets() []int64 {
+	c.mu.Lock()
+	defer c.mu.Unlock()
+	var out []int64
+	for _, ev := range c.journal {
+		if ev.API == KFetch && ev.Extra != nil {
+			if v, ok := ev.Extra["fetch_offset"].(int64); ok {
+				out = append(out, v)
+			}
+		}
+	}
+	return out
+}
+
 // Quiesce waits until every connection handler has finished (the clients
 // closed their ends and all pending applies/answers are done). It reports
 // false when handlers are still running after the timeout.
